@@ -3,7 +3,7 @@
    cascade/low/views.py).  All statements are about `precompute j` for EVERY well formed acyclic job j
    (wf_job, acyclic: Sched/PreschedMain.v) and speak about the job's edge list only. *)
 From Coq Require Import List NArith ZArith Bool Permutation Sorted.
-From EKW Require Import Sched.Presched Sched.PreschedCheck Sched.PreschedJob Sched.PreschedMain.
+From EKW Require Import Sched.Presched Sched.PreschedCheck Sched.PreschedJob Sched.PreschedMain Sched.PreschedTotal.
 Import ListNotations.
 
 (* every task is in exactly one component *)
@@ -69,9 +69,12 @@ Theorem C16_distance_spec : forall j p c a b, wf_job j -> acyclic j -> precomput
   exists row r, lookup N.eqb a (c_dist c) = Some row /\ lookup N.eqb b row = Some r /\ distance_full j (c_depth c) a b r.
 Proof. intros j p c a b Hwf Hac Hp. exact (distance_full_spec j Hwf Hac p Hp c a b). Qed.
 
-(* NOT proved (sampled only, by the correspondence run): that precompute returns at all on every well formed
-   acyclic job, i.e. no KeyError and both loops end.  All theorems above are stated under `precompute j = Ok p`. *)
-Definition C16_total_statement : Prop := forall j, wf_job j -> acyclic j -> exists p, precompute j = Ok p.
+(* precompute returns a preschedule on EVERY well formed acyclic job: the flood fill pops each task at most once, every
+   iteration of the `while remaining` loop places at least one task (the counters are exactly the numbers of children
+   not yet processed), no dictionary lookup fails -- so neither OutOfFuel nor KeyError/TypeError is possible with the
+   fuel the model uses, and the theorems above, stated under `precompute j = Ok p`, apply to every such job *)
+Theorem C16_total : forall j, wf_job j -> acyclic j -> exists p, precompute j = Ok p.
+Proof. exact precompute_total. Qed.
 
 (* ------------------------------------------------------------------ non-vacuity *)
 (* two components: a diamond 0 -> {1,2} -> 3 with a multi-edge 1 => 3 and a two-output task, and the isolated task 4 *)
@@ -129,3 +132,4 @@ Print Assumptions C16_edge_maps_exact.
 Print Assumptions C16_value_spec.
 Print Assumptions C16_depth_spec.
 Print Assumptions C16_distance_spec.
+Print Assumptions C16_total.
